@@ -303,6 +303,14 @@ func checkStructure(init *mp4.InitSegment, adds []*op, wit, where string) {
 		if t.Mdia.Hdlr.HandlerType != sp[0] {
 			fail("CreateEmptyTrak", "handler-type"+where, wit, fmt.Sprintf("media type %s has handler %s, expected %s", a.mt, t.Mdia.Hdlr.HandlerType, sp[0]))
 		}
+		// track header of the media type: volume 1.0 (8.8 fixed point) for audio, 0 otherwise (14496-12 8.3.2; C19Spec's table)
+		wantVol := 0
+		if sp[0] == "soun" {
+			wantVol = 0x0100
+		}
+		if int(t.Tkhd.Volume) != wantVol {
+			fail("CreateEmptyTrak", "tkhd-volume"+where, wit, fmt.Sprintf("media type %s has track volume %#x, expected %#x", a.mt, int(t.Tkhd.Volume), wantVol))
+		}
 		mh := t.Mdia.Minf.Children[0].Type()
 		if mh != sp[1] {
 			fail("CreateEmptyTrak", "media-header"+where, wit, fmt.Sprintf("media type %s has media header %s, expected %s", a.mt, mh, sp[1]))
